@@ -24,8 +24,31 @@ def E (code : Nat) (s : String) : Reply := .err code (some s)
 /-- Rust `{:?}` of a plain ASCII word -/
 def dbg (w : String) : String := "\"" ++ w ++ "\""
 
-def isTextWord (w : String) : Bool := !(w.toList.all fun c => c.isDigit || c == '-')
+
 def hasAlpha (w : String) : Bool := w.toList.any Char.isAlpha
+
+/-- does `str::parse::<f64>` succeed (full grammar: sign, inf / infinity / nan, decimal with exponent)? -/
+def isF64Tok (w : String) : Bool :=
+  let cs := w.toList.map Char.toLower
+  let cs := match cs with | '-' :: r => r | '+' :: r => r | _ => cs
+  if cs == "inf".toList || cs == "infinity".toList || cs == "nan".toList then true
+  else
+    let intPart := cs.takeWhile Char.isDigit
+    let rest := cs.drop intPart.length
+    let (frac, rest) := match rest with
+      | '.' :: r => (r.takeWhile Char.isDigit, r.dropWhile Char.isDigit)
+      | r => ([], r)
+    let mantissaOk := !intPart.isEmpty || !frac.isEmpty
+    match rest with
+    | [] => mantissaOk
+    | 'e' :: r =>
+        let r := match r with | '-' :: r' => r' | '+' :: r' => r' | _ => r
+        mantissaOk && !r.isEmpty && r.all Char.isDigit
+    | _ => false
+
+/-- a word of the duplicate check: neither a number (`str::parse::<f64>` succeeds) nor made of digits,
+'-' and '.' only (ranges) — repaired code -/
+def isTextWord (w : String) : Bool := !(isF64Tok w || w.toList.all fun c => c.isDigit || c == '-' || c == '.')
 
 /-- `contains_input_duplicate_commands_or_params`: the first text word that was seen before -/
 def canonicalWord (w : String) : String :=
@@ -151,25 +174,6 @@ def isNatTok (w : String) (maxv : Nat) : Bool :=
 
 def parseNatTok (w : String) : Nat :=
   digitsToNat (match w.toList with | '+' :: r => r | cs => cs)
-
-/-- does `str::parse::<f64>` succeed (full grammar: sign, inf / infinity / nan, decimal with exponent)? -/
-def isF64Tok (w : String) : Bool :=
-  let cs := w.toList.map Char.toLower
-  let cs := match cs with | '-' :: r => r | '+' :: r => r | _ => cs
-  if cs == "inf".toList || cs == "infinity".toList || cs == "nan".toList then true
-  else
-    let intPart := cs.takeWhile Char.isDigit
-    let rest := cs.drop intPart.length
-    let (frac, rest) := match rest with
-      | '.' :: r => (r.takeWhile Char.isDigit, r.dropWhile Char.isDigit)
-      | r => ([], r)
-    let mantissaOk := !intPart.isEmpty || !frac.isEmpty
-    match rest with
-    | [] => mantissaOk
-    | 'e' :: r =>
-        let r := match r with | '-' :: r' => r' | '+' :: r' => r' | _ => r
-        mantissaOk && !r.isEmpty && r.all Char.isDigit
-    | _ => false
 
 /-- `split_clauses` + `get_numbers` per clause (only reachable for `add` / `rmv`): number of tokens consumed -/
 def parseClauses (total : Nat) (args : List String) : Option Nat ⊕ Reply :=
